@@ -34,12 +34,35 @@ EXCEL = 'formulas/excel/__init__.py'
 BUILDER = 'formulas/builder.py'
 
 
+def _model_compile(ctx):
+    """The ExcelModel method that shrinks and pre-evaluates the model (found by
+    content, so a `compile` -> `_compile` delegation does not hide it)."""
+    p = ctx.project
+    M = p.cls(EXCEL, 'ExcelModel')
+    cands = [m for m in M.methods.values() if any(
+        isinstance(n, ast.Call) and call_name(n) == 'shrink_dsp'
+        for n in own_nodes(m))]
+    if len(cands) != 1:
+        raise AnalysisError('ExcelModel: expected exactly one method calling '
+                            'shrink_dsp, found %d' % len(cands))
+    f = cands[0]
+    if f.name != 'compile':
+        pub = M.methods.get('compile')
+        if pub is None or not any(
+                isinstance(n, ast.Call) and call_name(n) == f.name
+                for n in own_nodes(pub)):
+            raise AnalysisError('ExcelModel.compile does not reach %s' % f.name)
+    if len(f.params) < 3:
+        raise AnalysisError('%s: (self, inputs, outputs) expected' % f.qualname)
+    return f
+
+
 def rule_unset(ctx):
     rr = RuleResult('C08', 'C08.unset', 'MPT',
                     'ExcelModel.compile removes the defaults of the inputs and '
                     'their inverse closure before pre-evaluating', floor=4)
     p = ctx.project
-    f = p.func(EXCEL, 'ExcelModel.compile')
+    f = _model_compile(ctx)
     cfg = CFG(f)
     dom = cfg.dominators()
     inputs_p = f.params[1]
@@ -147,7 +170,7 @@ def rule_freeze(ctx):
                     'freezing uses the pre-evaluation; function built on the '
                     'caller\'s lists', floor=3)
     p = ctx.project
-    f = p.func(EXCEL, 'ExcelModel.compile')
+    f = _model_compile(ctx)
     sub = [n for n in own_nodes(f) if isinstance(n, ast.Call)
            and call_name(n) == 'get_sub_dsp_from_workflow']
     rr.instances += 1
@@ -188,6 +211,26 @@ def rule_freeze(ctx):
                 'nodes that already have a default / no longer uses the '
                 'pre-evaluation result', file=EXCEL, function=f.qualname,
                 line=f.lineno)
+    pub = p.func(EXCEL, 'ExcelModel.compile')
+    if pub is not f:
+        rr.instances += 1
+        calls = [n for n in own_nodes(pub) if isinstance(n, ast.Call)
+                 and call_name(n) == f.name]
+        direct = all([norm_src(a) for a in c.args] == pub.params[1:3]
+                     for c in calls)
+        rets = [n for n in own_nodes(pub) if isinstance(n, ast.Return)]
+        only_delegates = all(any(x is c for c in calls for x in ast.walk(r))
+                             for r in rets if r.value is not None)
+        if direct and only_delegates:
+            rr.ok('compile() delegates to %s with the caller\'s lists' % f.name,
+                  EXCEL)
+        else:
+            rr.fail(key_of(pub, 'compile result not rebuilt per request'),
+                    'ExcelModel.compile returns something other than a fresh '
+                    'result of %s(inputs, outputs) for this request (e.g. a '
+                    'function cached under a key that forgets the order of '
+                    'the lists or the state of the model)' % f.name,
+                    file=EXCEL, function=pub.qualname, line=pub.lineno)
     rr.instances += 1
     cc = [n for n in own_nodes(f) if isinstance(n, ast.Call) and
           norm_src(n.func) == 'self.compile_class']
